@@ -932,10 +932,7 @@ func (vc *VC) applySpecFunc(env *Env, sf *SpecFunc, args []SExpr) (Term, types.T
 		for _, a := range ats {
 			cur = Select(cur, a)
 		}
-		if env.facts != nil {
-			// values of ghost functions are well-formed values of their Go type
-			*env.facts = append(*env.facts, vc.wfAssume(env.st, cur, rt, 0))
-		}
+		vc.ghostWF(env.st, "G_"+sf.Name, sort, ats, rt)
 		return cur, rt
 	}
 	var sorts []Sort
@@ -945,9 +942,23 @@ func (vc *VC) applySpecFunc(env *Env, sf *SpecFunc, args []SExpr) (Term, types.T
 	fname := "spec$" + sf.Name
 	vc.q.DeclareFun(fname, sorts, rs)
 	res := App(rs, fname, ats...)
-	if env.facts != nil {
-		if _, isInt := intInfoOf(rt); isInt {
-			*env.facts = append(*env.facts, vc.wfAssume(env.st, res, rt, 0))
+	if _, isInt := intInfoOf(rt); isInt && !vc.assumedFacts["wf:"+fname] {
+		// spec functions return values of their declared Go type (an axiom, stated once)
+		vc.assumedFacts["wf:"+fname] = true
+		var bs, vs []string
+		var vars []Term
+		for i, a := range ats {
+			n := fmt.Sprintf("a%d", i)
+			bs = append(bs, fmt.Sprintf("(%s %s)", n, a.Sort))
+			vs = append(vs, n)
+			vars = append(vars, Term{n, a.Sort})
+		}
+		app := App(rs, fname, vars...)
+		body := vc.wfAssume(env.st, app, rt, 0)
+		if len(bs) == 0 {
+			vc.q.Assert(body)
+		} else {
+			vc.q.Raw(fmt.Sprintf("(assert (forall (%s) (! %s :pattern (%s))))", strings.Join(bs, " "), body.S, app.S))
 		}
 	}
 	return res, rt
@@ -1284,4 +1295,36 @@ func (vc *VC) tryType(env *Env, e SExpr) (ty types.Type, ok bool) {
 	_ = mark
 	_, ty = vc.specExpr(env, e)
 	return ty, true
+}
+
+// ghostWF states once, for the initial value of a ghost function's store, that every entry is a
+// well-formed value of the declared type (havocked entries get the same assumption when havocked).
+func (vc *VC) ghostWF(st *State, name string, sort Sort, ats []Term, rt types.Type) {
+	if vc.assumedFacts["gwf:"+name] || vc.top == nil || vc.top.entry == nil {
+		return
+	}
+	vc.assumedFacts["gwf:"+name] = true
+	g0 := vc.get(vc.top.entry, name, sort)
+	var bs []string
+	cur := g0
+	for i, a := range ats {
+		n := fmt.Sprintf("a%d", i)
+		bs = append(bs, fmt.Sprintf("(%s %s)", n, a.Sort))
+		cur = Select(cur, Term{n, a.Sort})
+	}
+	// structural well-formedness only: entries for keys that do not exist yet are pinned down later by
+	// the contracts that create them, so nothing is said about which objects they refer to
+	var body Term
+	switch rt.Underlying().(type) {
+	case *types.Slice:
+		body = And(Le(IntLit(0), SOff(cur)), Le(IntLit(0), SLen(cur)), Le(SLen(cur), SCap(cur)))
+	case *types.Basic:
+		body = vc.wfAssume(vc.top.entry, cur, rt, 0)
+	default:
+		return
+	}
+	if body.S == "true" {
+		return
+	}
+	vc.q.Raw(fmt.Sprintf("(assert (forall (%s) (! %s :pattern (%s))))", strings.Join(bs, " "), body.S, cur.S))
 }
